@@ -182,7 +182,23 @@ func flushDeletes(bs store.BadgerStore, ops *compactionInstruction, finalFlush b
 			}
 		}
 		// fmt.Println("deleted", len(all), "keys")
+		removed := make(map[string]bool, len(all))
+		for _, key := range all {
+			removed[string(key)] = true
+		}
 		for i, key := range ops.RewriteKeys {
+			// the rewrite was decided from the snapshot taken when the compaction started. Re-assign the latest
+			// pointer only if it still points at a version removed here: a writer may have stored a newer
+			// version since, and its pointer must not be turned back
+			if item, getErr := txn.Get(key); getErr == nil {
+				current, copyErr := item.ValueCopy(nil)
+				if copyErr != nil {
+					return copyErr
+				}
+				if !removed[string(current)] {
+					continue
+				}
+			}
 			err2 := txn.Set(key, ops.RewriteValues[i])
 			if err2 != nil {
 				return err2
